@@ -58,7 +58,7 @@ def CoreTyped (lx : Lex) (s : Bytes) : Prop :=
 /-- "quoted": neither as a value (single- or multi-line CUE literal) nor as a key does the
 scalar appear plain, whatever the library's own quoting rule says -/
 def Quoted (lx : Lex) (s : Bytes) : Prop :=
-  ∀ libq multi, valueStyle lx libq s multi ≠ .plain ∧ keyStyle lx libq s ≠ .plain
+  ∀ (P : IsPrint) libq multi, valueStyle P lx libq s multi ≠ .plain ∧ keyStyle P lx libq s ≠ .plain
 
 /-- the lexer reads the text as exactly one scalar token: typed as a non-string, or a string
 token carrying the text unchanged -/
